@@ -148,10 +148,8 @@ func (m *GoroutineTaskManager) Wait() {
 
 func (m *GoroutineTaskManager) run(ctx context.Context, fn func(int) error, thIdx int) {
 	defer func() {
-		if !m.HasError() {
-			if panicReport := recover(); panicReport != nil {
-				m.SetError(NewFatalError(panicReport))
-			}
+		if panicReport := recover(); panicReport != nil {
+			m.SetError(NewFatalError(panicReport))
 		}
 
 		if 1 < m.Number {
